@@ -75,7 +75,7 @@ def run (l : Lay) : List Step → Outcome Lay
     | .err k => .err k
     | .panic c => .panic c
 
-/-- byte range `[start, end)` of `at(i, j)` / `at_mut(i, j)` (znx_base.rs `at_ptr`, after 4e7ed9a):
+/-- byte range `[start, end)` of `at(i, j)` / `at_mut(i, j)` (znx_base.rs `at_ptr`, after 3faf6c4):
 `assert!(i < cols)`, `assert!(j < size)`, `offset = n * (j * cols + i)` scalars,
 `assert!(offset + n <= n * poly_count())` (`poly_count = rows·cols·size`, `rows = 1` here), `n` scalars long -/
 def atRange (l : Lay) (i j : Nat) : Outcome (Nat × Nat) :=
